@@ -96,7 +96,7 @@ fn c05_decode_total() {
                 Instruction::StringPush { value, format_options: Some(o) } => {
                     let f = b[2];
                     let mut at = 3;
-                    let mut ok = b[0] == Op::StringPush as u8 && *value == b[1] && f != 0 && f < 64 && (o.alignment as u8) == (f & 3);
+                    let mut ok = b[0] == Op::StringPush as u8 && *value == b[1] && f != 0 && (o.alignment as u8) == (f & 3);
                     if f & 4 != 0 {
                         match leb(b, at) { Some((v, n)) => { ok &= o.min_width == Some(v); at += n } None => ok = false }
                     } else { ok &= o.min_width.is_none() }
